@@ -1290,6 +1290,30 @@ def _unfold_comprehension(st, resolve, owner):
     return out
 
 
+def _split_conditional_assign(st, resolve, owner):
+    """`x = h(a) if c else e` (h a statement helper in an arm of a conditional EXPRESSION) -> `if c: x = h(a)` / `else: x = e`: the
+    same evaluation order, and the helper call becomes a whole statement that can be expanded in place.  Only for one target
+    that is a plain name or an attribute of a plain name (nothing is evaluated for the target before the value)."""
+    if not (isinstance(st, ast.Assign) and len(st.targets) == 1 and isinstance(st.value, ast.IfExp)):
+        return None
+    tg = st.targets[0]
+    if not (isinstance(tg, ast.Name) or (isinstance(tg, ast.Attribute) and isinstance(tg.value, ast.Name))):
+        return None
+    e = st.value
+    arms = [a for a in (e.body, e.orelse) if isinstance(a, ast.Call) and a in _helper_calls(a, resolve, owner)[:1]]
+    if not arms or _helper_calls(e.test, resolve, owner):
+        return None
+    import copy as _copy
+    mk = lambda v: ast.Assign(targets=[_copy.deepcopy(tg)], value=v)
+    new = ast.If(test=e.test, body=[mk(e.body)], orelse=[mk(e.orelse)])
+    for n in ast.walk(new):
+        if not hasattr(n, "lineno"):
+            ast.copy_location(n, st)
+    ast.copy_location(new, st)
+    ast.fix_missing_locations(new)
+    return [new]
+
+
 def _hoist_helper_arg(st, resolve, owner):
     """`X.append(h(a))` / `f(h(a))` / `x = g(h(a))` with h a statement helper -> `_t = h(a)` + the statement using `_t`; only when
     everything evaluated before the helper call is a plain name / constant (evaluation order is kept)"""
@@ -1402,6 +1426,10 @@ def expand_helpers(func, resolve):
             if ho is not None:
                 out.extend(ho)
                 continue
+            sp = _split_conditional_assign(st, resolve, func)
+            if sp is not None:
+                out.extend(prepare(sp))
+                continue
             out.append(st)
         return out
     func.body = prepare(func.body)
@@ -1415,6 +1443,90 @@ def expand_helpers(func, resolve):
     func.body = [_ExprInliner(resolve, func).visit(st) for st in func.body]
     ast.fix_missing_locations(func)
     return func
+
+
+def scalarise_local_objects(func, class_of):
+    """A local helper OBJECT that only carries a few tables and the code that fills them --
+
+        acc = _Table(n)                 class _Table:
+        acc.add(row, term)                  def __init__(self, n): self.n = n; self.rhs = ["0.0"] * n
+        rhs = acc.rhs                       def add(self, row, term): self.rhs[row] += term
+
+    -- is the code it abbreviates: the constructor and every method call on the object are put back in place (expand_helpers, the
+    receiver standing for `self`) and each field `acc.f` becomes the local `acc__f`.  class_of(callee expr) -> ClassDef | None names
+    the plain helper classes (no bases, no decorators, no properties / dunder hooks besides __init__).  Done only when the object
+    is bound once, at the top level of the function, and never used otherwise than `acc.<field>` / `acc.<method>(..)` (it does not
+    escape) and every call could be put back; otherwise the function is returned unchanged.  Returns a new FunctionDef."""
+    work = copy.deepcopy(func)
+    objs = {}
+    stores = {}
+    for n in ast.walk(work):
+        if isinstance(n, ast.Name) and isinstance(n.ctx, (ast.Store, ast.Del)):
+            stores[n.id] = stores.get(n.id, 0) + 1
+    params = {a.arg for a in ast.walk(work.args) if isinstance(a, ast.arg)}
+    for i, st in enumerate(work.body):
+        if isinstance(st, ast.Assign) and len(st.targets) == 1 and isinstance(st.targets[0], ast.Name) and isinstance(st.value, ast.Call):
+            x = st.targets[0].id
+            cd = class_of(st.value.func)
+            if cd is None or stores.get(x) != 1 or x in params:
+                continue
+            if cd.bases or cd.decorator_list or cd.keywords:
+                continue
+            meths = {m.name: m for m in cd.body if isinstance(m, ast.FunctionDef)}
+            if "__init__" not in meths or any(m.decorator_list or (k.startswith("__") and k != "__init__") for k, m in meths.items()):
+                continue
+            if any(isinstance(b, (ast.ClassDef, ast.AsyncFunctionDef)) for b in cd.body):
+                continue
+            # fields: everything the methods store through self; class-level attributes are not followed
+            if any(isinstance(b, (ast.Assign, ast.AnnAssign)) and getattr(b, "value", None) is not None for b in cd.body):
+                continue
+            objs[x] = (i, meths)
+    if not objs:
+        return func
+    for x, (i, meths) in objs.items():
+        st = work.body[i]
+        call = st.value
+        init = ast.Expr(value=ast.Call(func=ast.Attribute(value=ast.Name(id=x, ctx=ast.Load()), attr="__init__", ctx=ast.Load()), args=call.args, keywords=call.keywords))
+        work.body[i] = ast.fix_missing_locations(ast.copy_location(init, st))
+
+    def resolve(call):
+        f = call.func
+        if isinstance(f, ast.Attribute) and isinstance(f.value, ast.Name) and f.value.id in objs and f.attr in objs[f.value.id][1]:
+            return objs[f.value.id][1][f.attr], f.value
+        return None
+    try:
+        expand_helpers(work, resolve)
+    except RecursionError:
+        return func
+    # every remaining use of the object must be a field access
+    parent_attr = set()
+    for n in ast.walk(work):
+        if isinstance(n, ast.Attribute) and isinstance(n.value, ast.Name) and n.value.id in objs:
+            parent_attr.add(id(n.value))
+            if n.attr in objs[n.value.id][1]:
+                return func                 # a method used as a value / a call that could not be put back
+    for n in ast.walk(work):
+        if isinstance(n, ast.Name) and n.id in objs and id(n) not in parent_attr:
+            return func                     # the object itself is read (passed on, returned, compared): it escapes
+    fields = {}
+    for n in ast.walk(work):
+        if isinstance(n, ast.Attribute) and isinstance(n.value, ast.Name) and n.value.id in objs and isinstance(n.ctx, ast.Store):
+            fields.setdefault(n.value.id, set()).add(n.attr)
+    taken = {n.id for n in ast.walk(work) if isinstance(n, ast.Name)} | params
+
+    class Fld(ast.NodeTransformer):
+        def visit_Attribute(self, n):
+            self.generic_visit(n)
+            if isinstance(n.value, ast.Name) and n.value.id in objs:
+                return ast.copy_location(ast.Name(id=f"{n.value.id}__{n.attr}", ctx=n.ctx), n)
+            return n
+    for x in objs:
+        # a field that is read but never assigned, or whose local name is taken: not a plain record of tables
+        reads = {n.attr for n in ast.walk(work) if isinstance(n, ast.Attribute) and isinstance(n.value, ast.Name) and n.value.id == x}
+        if reads - fields.get(x, set()) or any(f"{x}__{f}" in taken for f in reads):
+            return func
+    work = Fld().visit(work)
+    return ast.fix_missing_locations(work)
 
 
 class _CallLambda(ast.NodeTransformer):
@@ -2217,11 +2329,57 @@ def _inline_generator_loops_multi(func, resolve, max_depth: int = 2):
 
 
 
+def _forward_generator_locals(func, resolve):
+    """`terms = self._gen(a, b)` ... `for t in terms:` with `_gen` a generator helper and `terms` read nowhere else is
+    `for t in self._gen(a, b):` -- calling a generator function runs none of its body, only the argument expressions are evaluated at
+    the call; they must be plain names / constants / attribute chains that no statement in between re-binds.  Same block only."""
+    loads = {}
+    for n in ast.walk(func):
+        if isinstance(n, ast.Name) and isinstance(n.ctx, ast.Load):
+            loads[n.id] = loads.get(n.id, 0) + 1
+    stores = {}
+    for n in ast.walk(func):
+        if isinstance(n, ast.Name) and isinstance(n.ctx, (ast.Store, ast.Del)):
+            stores[n.id] = stores.get(n.id, 0) + 1
+
+    def block(stmts):
+        i = 0
+        while i < len(stmts):
+            st = stmts[i]
+            for fld in ("body", "orelse", "finalbody"):
+                b = getattr(st, fld, None)
+                if isinstance(b, list) and b and isinstance(b[0], ast.stmt) and not isinstance(st, (ast.FunctionDef, ast.ClassDef, ast.AsyncFunctionDef)):
+                    block(b)
+            if isinstance(st, ast.Assign) and len(st.targets) == 1 and isinstance(st.targets[0], ast.Name) and isinstance(st.value, ast.Call):
+                x, call = st.targets[0].id, st.value
+                r = resolve(call)
+                # (one-yield generators only: a generator with several yields usually hands over records of several kinds that the
+                # consumer tells apart again -- reading that needs more than putting the pieces next to each other)
+                if r is not None and r[0] is not func and _single_yield(r[0]) is not None \
+                        and loads.get(x, 0) == 1 and stores.get(x, 0) == 1 \
+                        and all(_pure(a) for a in call.args) and all(k.arg is not None and _pure(k.value) for k in call.keywords):
+                    argnames = set().union(set(), *[_loaded(a) for a in call.args], *[_loaded(k.value) for k in call.keywords])
+                    for j in range(i + 1, len(stmts)):
+                        nxt = stmts[j]
+                        if isinstance(nxt, ast.For) and isinstance(nxt.iter, ast.Name) and nxt.iter.id == x:
+                            nxt.iter = call
+                            del stmts[i]
+                            i -= 1
+                            break
+                        if x in _loaded(nxt) or (argnames & _stored([nxt])):
+                            break
+            i += 1
+    block(func.body)
+    return func
+
+
 def inline_generator_loops(func, resolve):
     """`for T in self._gen(args): BODY`, `_gen` a generator with ONE `yield E` reached through for / if only: the generator's
     statements with `yield E` replaced by `T = E; BODY` (parameters bound to the arguments, locals made unique) -- producer and
     consumer run interleaved in exactly this order.  resolve(call) -> (callee, receiver | None) | None.  Refused when BODY leaves
     its iteration early (break / continue) or the loop has an `else`."""
+    _forward_generator_locals(func, resolve)
+
     def expand(stmts, depth):
         out = []
         for st in stmts:
@@ -2812,6 +2970,196 @@ def join_piece_tables(func):
     return func
 
 
+def join_term_lists(func):
+    """A table of strings kept as a table of PIECE LISTS and joined once at the end --
+
+        T = [["0.0"] for _ in range(n)]   ...   T[i].append(term)   ...   X = ["".join(pieces) for pieces in T]
+
+    -- is the table of strings `T = ["0.0"] * n` ... `T[i] += term` ... `X = T`: joining the pieces with "" in the order they were
+    appended is the concatenation.  Only when T is bound once (that comprehension: constant string pieces, a counting loop whose
+    variable the element does not use), every other use of T is `T[<index>].append(<one argument>)` as a statement or the one
+    joining comprehension, which stands at the top level of the function after every append.  (In place; returns func.)"""
+    binds, joins = {}, {}
+    for i, st in enumerate(func.body):
+        if not (isinstance(st, ast.Assign) and len(st.targets) == 1 and isinstance(st.targets[0], ast.Name) and isinstance(st.value, ast.ListComp)):
+            continue
+        c = st.value
+        if len(c.generators) != 1 or c.generators[0].ifs or c.generators[0].is_async:
+            continue
+        g = c.generators[0]
+        if isinstance(c.elt, ast.List) and c.elt.elts and all(isinstance(e, ast.Constant) and isinstance(e.value, str) for e in c.elt.elts) \
+                and isinstance(g.iter, ast.Call) and isinstance(g.iter.func, ast.Name) and g.iter.func.id == "range" and len(g.iter.args) == 1 and not g.iter.keywords \
+                and isinstance(g.target, ast.Name):
+            binds[st.targets[0].id] = i
+        elif isinstance(g.iter, ast.Name) and isinstance(g.target, ast.Name) and isinstance(c.elt, ast.Call) and isinstance(c.elt.func, ast.Attribute) \
+                and c.elt.func.attr == "join" and isinstance(c.elt.func.value, ast.Constant) and c.elt.func.value.value == "" and not c.elt.keywords \
+                and len(c.elt.args) == 1 and isinstance(c.elt.args[0], ast.Name) and c.elt.args[0].id == g.target.id:
+            joins.setdefault(g.iter.id, []).append(i)
+    for T, bi in binds.items():
+        if len(joins.get(T, ())) != 1 or joins[T][0] <= bi:
+            continue
+        ji = joins[T][0]
+        nstores = sum(1 for n in ast.walk(func) if isinstance(n, ast.Name) and n.id == T and isinstance(n.ctx, (ast.Store, ast.Del)))
+        if nstores != 1 or T in {a.arg for a in ast.walk(func.args) if isinstance(a, ast.arg)}:
+            continue
+        # every load of T: the join's iterable, or the base of `T[i].append(x)` in an expression statement before the join
+        appends = []
+        okuse = True
+        allowed = {id(func.body[ji].value.generators[0].iter)}
+        for k, top in enumerate(func.body):
+            for n in ast.walk(top):
+                if isinstance(n, ast.Expr) and isinstance(n.value, ast.Call) and isinstance(n.value.func, ast.Attribute) and n.value.func.attr == "append" \
+                        and isinstance(n.value.func.value, ast.Subscript) and isinstance(n.value.func.value.value, ast.Name) and n.value.func.value.value.id == T \
+                        and len(n.value.args) == 1 and not n.value.keywords and not isinstance(n.value.args[0], ast.Starred) and bi < k < ji:
+                    appends.append(n)
+                    allowed.add(id(n.value.func.value.value))
+        for n in ast.walk(func):
+            if isinstance(n, ast.Name) and n.id == T and isinstance(n.ctx, ast.Load) and id(n) not in allowed:
+                okuse = False
+        if not okuse:
+            continue
+        b = func.body[bi]
+        cell = ast.Constant(value="".join(e.value for e in b.value.elt.elts))
+        # (`[c] * (a * b)` is spelled `[c] * a * b`, the form the size rules know)
+        factors, todo = [], [b.value.generators[0].iter.args[0]]
+        while todo:
+            e = todo.pop()
+            if isinstance(e, ast.BinOp) and isinstance(e.op, ast.Mult):
+                todo += [e.right, e.left]
+            else:
+                factors.append(e)
+        val = ast.List(elts=[cell], ctx=ast.Load())
+        for e in factors:
+            val = ast.BinOp(left=val, op=ast.Mult(), right=e)
+        b.value = val
+        ast.fix_missing_locations(ast.copy_location(b.value, b))
+        ids = {id(n) for n in appends}
+
+        class Rw(ast.NodeTransformer):
+            def visit_Expr(self, n):
+                if id(n) not in ids:
+                    return n
+                sub = n.value.func.value
+                sub.ctx = ast.Store()
+                return ast.fix_missing_locations(ast.copy_location(ast.AugAssign(target=sub, op=ast.Add(), value=n.value.args[0]), n))
+        func.body[bi + 1:ji] = [Rw().visit(st) for st in func.body[bi + 1:ji]]
+        j = func.body[ji]
+        j.value = ast.copy_location(ast.Name(id=T, ctx=ast.Load()), j.value)
+    return func
+
+
+_PURE_METHODS = {"index", "get", "keys", "values", "items", "copy", "strip", "lstrip", "rstrip", "lower", "upper", "format", "join", "split", "count",
+                 "startswith", "endswith", "replace"}
+_PURE_BUILTINS = {"len", "str", "int", "float", "bool", "enumerate", "zip", "range", "list", "tuple", "sorted", "reversed", "min", "max", "sum", "abs", "repr", "tqdm"}
+
+
+def _calls_pure(e, is_record) -> bool:
+    """every call inside `e` builds a value without touching anything else: a record constructor (is_record(name)), a builtin that only
+    reads its arguments, a read-only method of str / list / dict"""
+    for n in ast.walk(e):
+        if isinstance(n, (ast.Await, ast.Yield, ast.YieldFrom, ast.NamedExpr, ast.Lambda)):
+            return False
+        if isinstance(n, ast.Call):
+            f = n.func
+            if isinstance(f, ast.Name) and (f.id in _PURE_BUILTINS or is_record(f.id)):
+                continue
+            if isinstance(f, ast.Attribute) and f.attr in _PURE_METHODS:
+                continue
+            return False
+    return True
+
+
+def fuse_collected_loops(func, is_record=lambda name: False):
+    """Items collected first and consumed by ONE loop afterwards --
+
+        L = [E1 for T1 in S1]            (also `+ [..]`, `+ list(E for ..)`, and `L.extend(E2 for T2 in S2)` statements)
+        for T in L: BODY
+
+    -- is `for T1 in S1: T = E1; BODY` followed by `for T2 in S2: T = E2; BODY`: the same items reach BODY in the same order.  The
+    evaluation of the items moves from before the loop into it, so this is done only when that cannot be observed: the element /
+    filter expressions contain nothing but pure calls (_calls_pure), BODY (and every statement between the collection and the loop)
+    stores or mutates no name the collection reads, and BODY has no `break` / `else`.  L must be read by that loop only.  One
+    generator per comprehension; its filters become `if`s around the body.  (In place; returns func.)"""
+    loads = {}
+    for n in ast.walk(func):
+        if isinstance(n, ast.Name) and isinstance(n.ctx, ast.Load):
+            loads[n.id] = loads.get(n.id, 0) + 1
+
+    def comps_of(e):
+        """[comprehension, ..] when e is a concatenation of list comprehensions / list(generator) / generator expressions"""
+        if isinstance(e, ast.BinOp) and isinstance(e.op, ast.Add):
+            l, r = comps_of(e.left), comps_of(e.right)
+            return l + r if l is not None and r is not None else None
+        if isinstance(e, ast.Call) and isinstance(e.func, ast.Name) and e.func.id in ("list", "tuple") and len(e.args) == 1 and not e.keywords:
+            return comps_of(e.args[0]) if isinstance(e.args[0], (ast.GeneratorExp, ast.ListComp)) else None
+        if isinstance(e, (ast.ListComp, ast.GeneratorExp)) and len(e.generators) == 1 and not e.generators[0].is_async and _calls_pure(e, is_record):
+            return [e]
+        if isinstance(e, ast.List) and not e.elts:
+            return []
+        return None
+
+    def block(stmts):
+        i = 0
+        while i < len(stmts):
+            st = stmts[i]
+            for fld in ("body", "orelse", "finalbody"):
+                b = getattr(st, fld, None)
+                if isinstance(b, list) and b and isinstance(b[0], ast.stmt) and not isinstance(st, (ast.FunctionDef, ast.ClassDef, ast.AsyncFunctionDef)):
+                    block(b)
+            parts = comps_of(st.value) if isinstance(st, ast.Assign) and len(st.targets) == 1 and isinstance(st.targets[0], ast.Name) else None
+            if parts is not None:
+                L = st.targets[0].id
+                drop = [i]
+                j = i + 1
+                done = None
+                while j < len(stmts):
+                    nx = stmts[j]
+                    read = set().union(set(), *[_loaded(c) for c in parts])
+                    if isinstance(nx, ast.Expr) and isinstance(nx.value, ast.Call) and isinstance(nx.value.func, ast.Attribute) and nx.value.func.attr == "extend" \
+                            and isinstance(nx.value.func.value, ast.Name) and nx.value.func.value.id == L and len(nx.value.args) == 1 and not nx.value.keywords:
+                        more = comps_of(nx.value.args[0])
+                        if more is None or L in _loaded(nx.value.args[0]):
+                            break
+                        parts = parts + more
+                        drop.append(j)
+                    elif isinstance(nx, ast.For) and isinstance(nx.iter, ast.Name) and nx.iter.id == L:
+                        n_ext = len(drop) - 1
+                        if loads.get(L, 0) == 1 + n_ext and parts and not nx.orelse and not _own_break(nx.body) \
+                                and not (read & (_stored(nx.body) | {n.id for n in ast.walk(nx.target) if isinstance(n, ast.Name)})) \
+                                and not any({n.id for n in ast.walk(c.generators[0].target) if isinstance(n, ast.Name)} & (_loaded(nx) | _stored([nx])) for c in parts):
+                            done = j
+                        break
+                    elif L in _loaded(nx) or L in _stored([nx]) or (read & _stored([nx])):
+                        break
+                    j += 1
+                if done is not None:
+                    loop = stmts[done]
+                    new = []
+                    for c in parts:
+                        g = c.generators[0]
+                        bind = ast.Assign(targets=[copy.deepcopy(loop.target)], value=copy.deepcopy(c.elt))
+                        body = [bind] + copy.deepcopy(loop.body)
+                        for cond in reversed(g.ifs):
+                            body = [ast.If(test=copy.deepcopy(cond), body=body, orelse=[])]
+                        f = ast.For(target=copy.deepcopy(g.target), iter=copy.deepcopy(g.iter), body=body, orelse=[], type_comment=None)
+                        for n in ast.walk(f.target):
+                            if isinstance(n, (ast.Name, ast.Tuple, ast.List, ast.Starred)):
+                                n.ctx = ast.Store()
+                        ast.copy_location(f, loop)
+                        for n in ast.walk(f):
+                            if not hasattr(n, "lineno"):
+                                ast.copy_location(n, loop)
+                        ast.fix_missing_locations(f)
+                        new.append(f)
+                    stmts[done:done + 1] = new
+                    for k in reversed(drop):
+                        del stmts[k]
+                    i -= 1
+            i += 1
+    block(func.body)
+    return func
+
+
 def coalesce_copies(func):
     """Copy coalescing at the top level of a function: `A = x` / `A, B = x, y` where the local x is not used afterwards and the name A
     does not occur before, is the same program with x spelled A from the start (the copy statement disappears).  This is what is
@@ -2837,12 +3185,25 @@ def coalesce_copies(func):
             before = {n.id for b in func.body[:i] for n in ast.walk(b) if isinstance(n, ast.Name)} | \
                      {n.name for b in func.body[:i] for n in ast.walk(b) if isinstance(n, (ast.FunctionDef, ast.ClassDef))}
             after = {n.id for b in func.body[i + 1:] for n in ast.walk(b) if isinstance(n, ast.Name)}
-            if set(dsts) & (before | params) or set(srcs) & after or not set(srcs) <= before:
+            if set(dsts) & (before | params) or not set(srcs) <= before:
                 continue
             if any(isinstance(n, (ast.Global, ast.Nonlocal)) for n in ast.walk(func)):
                 continue
+            alias = False
+            if set(srcs) & after:
+                # `A = x` with x still used afterwards: when neither name is ever bound again, both denote the one object from here
+                # on (an ALIAS, e.g. `rhs = table__rhs` left by a scalarised helper object): x is spelled A everywhere
+                nstores = {}
+                for n in ast.walk(func):
+                    if isinstance(n, ast.Name) and isinstance(n.ctx, (ast.Store, ast.Del)):
+                        nstores[n.id] = nstores.get(n.id, 0) + 1
+                if any(nstores.get(x, 0) != 1 for x in srcs + dsts):
+                    continue
+                alias = True
             ren = dict(zip(srcs, dsts))
             func.body[:i] = [_Rename(ren).visit(b) for b in func.body[:i]]
+            if alias:
+                func.body[i + 1:] = [_Rename(ren).visit(b) for b in func.body[i + 1:]]
             del func.body[i]
             changed = True
             break
